@@ -19,7 +19,7 @@ SPEC['C02'] = ('Top-down build does no unnecessary work', ['Local', 'Local2', 'H
   ('C02_consistent_dep_continues', 'Local', 'check_deps_consistent', 'a dependency reported Consistent by its own checker does not stop validation'),
   ('C02_validation_in_order', 'Local', 'check_deps_app', 'dependencies are validated left to right in the recorded (creation) order: a consistent prefix is skipped over'),
 ], 'PARTIAL for the last clause (executed set is a subset of a from-scratch build for exact checkers): decided by correspondence + oracle.')
-SPEC['C03'] = ('Bottom-up build leaves every known task up to date', ['Local2', 'Findings', 'BuDone', 'BuJust', 'ExecInv', 'Cert', 'Stable', 'NoAbort', 'Valid', 'C01Witness', 'OnceAll', 'UpToDate', 'UpToDateWitness'], [
+SPEC['C03'] = ('Bottom-up build leaves every known task up to date', ['Local2', 'Findings', 'BuDone', 'BuJust', 'ExecInv', 'Cert', 'Stable', 'NoAbort', 'Valid', 'Sim', 'C01Witness', 'OnceAll', 'UpToDate', 'UpToDateWitness'], [
   ('C03_witness_premises', 'UpToDateWitness', 'C03_witness_premises', 'non-vacuity of the two theorems above: for the generator/consumer instance of C01Witness.v (static class, exact = reflexive checkers), after a session that built both tasks every recorded dependency is consistent (AllValid, decided by the verified checker allvalidb), the generator input is then changed and reported'),
   ('C03_witness_does_real_work', 'UpToDateWitness', 'C03_witness_does_real_work', '... the bottom-up build re-executes the generator and the consumer (newest first [0; 1]), stores the new output 211, and requiring the consumer in a new session returns 211'),
   ('C03_every_scheduled_task_is_executed', 'BuDone', 'bottom_up_executes_all_scheduled', 'partial, GLOBAL: for ALL programs, checkers, fuel, worlds and change sets, in a bottom-up build that completes every scheduling event of a task is followed (later in the event stream) by an execution start of that task: nothing that was found affected -- directly by a reported change, or indirectly by the output or writes of a task executed in the build -- is left unexecuted (the build ends with an empty queue)'),
@@ -212,6 +212,27 @@ RAW['C01'] += [
 ]
 
 RAW['C03'] = [
+  ('C03_complete_static_class',
+   'THE PROPERTY, complete, in the static program class with reflexive, view-preserving checkers (the class of C01 + C20): after ANY history whose final store has only consistent recorded dependencies for the tasks with an output, ANY external changes, and the session-opening bottom-up build that is told about every changed resource: the build does not abort, and a following session that requires any known tasks executes NOTHING and returns EXACTLY what the same session returns on a fresh store holding the current resources (which returns), with equal resource contents afterwards. Proof: C03_validity_restored_static_class gives a store in which every recorded dependency is consistent; Idem.v: the requires are then pure re-validations; Sim.v (the C01 simulation, which only needs the store invariants and the exact-record invariant K of the incremental side, both established for every history by NoBugAll / CertAll): incremental and from-scratch sessions agree',
+   TOTAL_BINDERS + """  (forall c env r v, rc_check (RC c) env r v (sf c r v) = Consistent) ->   (* resource checkers accept the stamp of the value they stamped *)
+  (forall c o, oc_check (OC c) o (oc_stamp (OC c) o) = true) ->          (* output checkers likewise *)
+  (forall c env r v v', rc_check (RC c) env r v' (sf c r v) = Consistent -> rc_view (RC c) v' = rc_view (RC c) v) ->   (* an accepting checker shows the same view *)
+  (forall c env r v v', wck c -> rc_check (RC c) env r v' (sf c r v) = Consistent -> v' = v) ->                    (* write checkers accept only the written value *)
+  (forall c o o', oc_check (OC c) o' (oc_stamp (OC c) o) = true -> oc_view (OC c) o' = oc_view (OC c) o) ->
+  forall fuel fuel0 h edits ch ops,
+  let wh := snd (run_history RC OC P always fuel init_world h) in
+  let w1 := snd (run_history RC OC P always fuel wh (edits_of edits)) in
+  AllValid RC OC wh -> (forall r, get_content w1 r <> get_content wh r -> In r ch) -> roots_below ord fuel ops -> roots_below ord fuel0 ops ->
+  match session_bottom_up RC OC P fuel (new_session w1) ch with
+  | Done _ w' =>
+      (forall t, In t (roots ops) -> get_task_output w' t <> None) ->
+      let ra := run_session RC OC P always fuel (new_session w') ops in
+      let rb := run_session RC OC P always fuel0 (new_session (fresh_of w')) ops in
+      execs (rev (trace (snd ra))) = [] /\\ fst ra = fst rb /\\ Forall is_done (fst rb) /\\ forall r, get_content (snd ra) r = get_content (snd rb) r
+  | Abort _ _ => False
+  | OutOfFuel => True
+  end""",
+   'intros gen wck ord RC OC P sf always HS HWF HWO HRefl HReflO HC HW HOC fuel fuel0 h edits ch ops. exact (bottom_up_then_require_equals_scratch gen wck ord RC OC P sf HS HWF HWO HRefl HReflO always HC HW HOC fuel fuel0 h edits ch ops).'),
   ('C03_up_to_date_static_class',
    'the main clause, in the static program class (WFP + WFO) with reflexive checkers (a checker accepts the stamp of the value it stamped): after ANY history whose final store has only consistent recorded dependencies for the tasks that have an output ("all known tasks were last consistent": AllValid), then ANY external changes (edits), then the bottom-up build that opens a session and is told about every resource whose content changed: the build does not abort, and requiring any known tasks afterwards (a new session of requires, ops) executes NOTHING, returns the stored outputs and changes no resource. UpToDate.v: invariant of the build on top of OnceAll.v -- every recorded dependency of a task with an output is consistent, or the task is queued, or the dependency is on a task that is executing / has just finished and is about to schedule its dependents (a require of it, a read of a resource it has written in this execution); every dependency an executing task has recorded so far is consistent; tasks executed as new have no dependents. At the end the queue is empty and nothing is executing. (The clause "... equals the from-scratch output" is not part of this theorem: it is decided by the fresh-instance oracle of the check.)',
    TOTAL_BINDERS + """  (forall c env r v, rc_check (RC c) env r v (sf c r v) = Consistent) ->   (* resource checkers accept the stamp of the value they stamped *)
@@ -239,7 +260,7 @@ RAW['C03'] = [
   let w1 := snd (run_history RC OC P always fuel wh (edits_of edits)) in
   AllValid RC OC wh -> (forall r, get_content w1 r <> get_content wh r -> In r ch) ->
   match session_bottom_up RC OC P fuel (new_session w1) ch with
-  | Done _ w' => AllValid RC OC w' /\\ StoreOK w' /\\ Q gen ord w' /\\ NoRes w'
+  | Done _ w' => AllValid RC OC w' /\\ StoreOK w' /\\ Q gen ord w' /\\ NoRes w' /\\ K RC OC P sf w'
   | Abort _ _ => False
   | OutOfFuel => True
   end""",
